@@ -230,7 +230,7 @@ func c06Seq(c *fw.Ctx, i int) {
 	pk := i % len(c06PayloaderNames)
 	mtu := uint16(r.Pick(64, 65, 100, 576, 1200, 1500, 65535, r.Range(64, 2000), r.Range(64, 65535)))
 	pt := uint8(r.Intn(128))
-	ssrc := uint32(r.U64())
+	ssrc := uint32(r.PickU64(0, 0, 1, 0xFFFFFFFF, 0x80000000, r.U64(), r.U64(), r.U64())) // 0 is an SSRC like any other
 	var start uint16
 	fixed := r.Chance(3, 4)
 	if fixed {
